@@ -61,6 +61,23 @@ Proof.
 Qed.
 Print Assumptions C07_unknown_channel_fails.
 
+(* (4') Transport faults: a writer opened through gw while gw cannot reach node p, on known
+   channels one of which is leased to p, fails and changes nothing; and any script runs to the same
+   cluster state — every leaseholder's store and every open writer — as the script without such
+   failed opens: they leave nothing behind (no peer stream, no storage writer) for later writers,
+   through whichever node, to trip over. Together with (3): the single store given only the other
+   requests holds what the cluster holds. *)
+Theorem C07_unreachable_open_no_effect : forall c id gw p keys auto ops,
+  (cut_hits gw p keys = true -> keys <> [] -> Forall (fun k => k ∈ cl_chans c) keys ->
+   dstep c (OpenCut id gw p keys auto) = (c, DUnreachable)) /\
+  drun c ops = drun c (List.filter (fun o => negb (is_cut o)) ops).
+Proof.
+  intros c id gw p keys auto ops. split.
+  - apply cut_open_result.
+  - apply drun_skips_cut.
+Qed.
+Print Assumptions C07_unreachable_open_no_effect.
+
 (* (5) Commit acknowledgement: of the n responses of one sequence number, the synchronizer
    forwards nothing for the first n-1 and exactly one response on the n-th — the writer's Commit
    returns only after every involved leaseholder has answered. (Both synchronizer variants.) *)
